@@ -151,24 +151,46 @@ class C06(Prop):
             return rnd.choice(list(range(N)) + [N, N + 3]) if rnd.random() < 0.2 or N == 0 else rnd.randrange(0, N)
 
         modes = G.MODES if rnd.random() < 0.5 else [rnd.choice(G.MODES)]
+        rc = self._routes
         for m in modes:
             lines.append('moffcnt 0 %s %s' % (m, idx_list(True)))
             lines.append('moffcnt1 0 %s %d' % (m, one_idx()))
         for m in modes:
-            lines.append('mtagged 0 %s %s' % (m, idx_list()))
-            lines.append('mtagged1 0 %s %d' % (m, one_idx()))
+            if rnd.random() < 0.5:
+                lines.append(G.routed(rnd, 'mtagged', [0] + idx_list().split(' '), m, None, rc))
+            else:
+                lines.append('mtagged 0 %s %s' % (m, idx_list()))
+            if rnd.random() < 0.5:
+                lines.append(G.routed(rnd, 'mtagged1', [0, one_idx()], m, None, rc))
+            else:
+                lines.append('mtagged1 0 %s %d' % (m, one_idx()))
         if N and rnd.random() < 0.5:
             # every single index next to the list of all of them (retrieval for a list = list of single retrievals)
             m = rnd.choice(G.MODES)
             lines.append('mtagged 0 %s %d %s' % (m, N, ' '.join(str(i) for i in range(N))))
             for i in range(N):
                 lines.append('mtagged1 0 %s %d' % (m, i))
+        if N and rnd.random() < 0.08:
+            # every public entry point on the same requests: position indices >= 2, the last one, beyond the last one
+            for i in sorted(set([min(2, N - 1), N - 1, N, N + 3] + ([rnd.randrange(2, N)] if N > 2 else []))):
+                lines += G.all_routes(rnd, 'mtagged1', [0, i], rc)
+            l = [N - 1] + [rnd.randrange(0, N) for _ in range(2)] + ([N + 1] if rnd.random() < 0.3 else [])
+            lines += G.all_routes(rnd, 'mtagged', [0, len(l)] + l, rc)
+            if feats:
+                j = rnd.randrange(0, len(feats))
+                for i in (N - 1, N):
+                    lines += G.all_routes(rnd, 'mfeature1', [j, i], rc)
+                lines += G.all_routes(rnd, 'mfeature', [j, len(l)] + l, rc)
         if rnd.random() < 0.1:
             lines.append('mtagged %d %s %s' % (rnd.choice([1, 4]), rnd.choice(G.MODES), idx_list()))
         for j in range(len(feats)):
             for m in (modes if rnd.random() < 0.4 else [rnd.choice(G.MODES)]):
-                lines.append('mfeature %d %s %s' % (j, m, idx_list()))
-                lines.append('mfeature1 %d %s %d' % (j, m, one_idx()))
+                if rnd.random() < 0.5:
+                    lines.append(G.routed(rnd, 'mfeature', [j] + idx_list().split(' '), m, None, rc))
+                    lines.append(G.routed(rnd, 'mfeature1', [j, one_idx()], m, None, rc))
+                else:
+                    lines.append('mfeature %d %s %s' % (j, m, idx_list()))
+                    lines.append('mfeature1 %d %s %d' % (j, m, one_idx()))
         if rnd.random() < 0.15:
             lines.append('mfeature1 %d %s %d' % (len(feats) + rnd.choice([0, 2]), rnd.choice(G.MODES), one_idx()))
         # every such query aborts the pinned library (sanitizer) and costs a driver restart; the engine gives up after 400
@@ -180,8 +202,18 @@ class C06(Prop):
         lines = [' '.join(x.split()) for x in lines]
         return Case(lines, '%s:%d%s' % (flavour, rank, ''.join(kinds)))
 
+    _routes = {}
+
+    def extra_checks(self, ctx):
+        # which public entry points exist and how many query lines of this run went through each
+        ctx['ev']['entry_points'] = {k: G.ROUTES[k] for k in ('mtagged1', 'mtagged', 'mfeature1', 'mfeature')}
+        ctx['ev']['entry_points_plain'] = {k: G.PLAIN_ROUTES[k] for k in ('moffcnt', 'moffcnt1')}
+        ctx['ev']['query_lines_per_route'] = dict(sorted(self._routes.items()))
+        return []
+
     def generate(self, seed, tier, scale=1):
         rnd = random.Random(seed)
+        self._routes = {}
         combos = G.all_kind_combos()
         quick = tier == 'quick'
         per = (16 if quick else 750) * scale
